@@ -81,6 +81,11 @@ class BlockingCall:
 class RustBlockingAsyncAnalyzer(RustBaseAnalyzer):
     """Analyzer for detecting blocking operations inside async functions."""
 
+    def __init__(self) -> None:
+        """Initialize the analyzer with an empty import table."""
+        super().__init__()
+        self._imports: dict[str, str] = {}
+
     def find_blocking_calls(self, code: str) -> list[BlockingCall]:
         """Find all blocking calls inside async functions.
 
@@ -97,6 +102,7 @@ class RustBlockingAsyncAnalyzer(RustBaseAnalyzer):
         if root is None:
             return []
 
+        self._imports = _collect_imports(root)
         calls: list[BlockingCall] = []
         self._scan_for_blocking_calls(root, code, calls)
         return calls
@@ -157,7 +163,7 @@ class RustBlockingAsyncAnalyzer(RustBaseAnalyzer):
         if not path:
             return None
 
-        pattern = _classify_blocking_pattern(path)
+        pattern = _classify_blocking_pattern(_resolve_imported_path(path, self._imports))
         if pattern is None:
             return None
 
@@ -187,8 +193,96 @@ class RustBlockingAsyncAnalyzer(RustBaseAnalyzer):
         """
         for child in call_node.children:
             if child.type == "scoped_identifier":
-                return self.extract_node_text(child)
+                # An absolute path (::std::fs::read) names the same API as std::fs::read
+                return self.extract_node_text(child).removeprefix("::")
         return ""
+
+
+def _collect_imports(root: Node) -> dict[str, str]:
+    """Map every name bound by a `use` declaration to the full path it stands for.
+
+    `use tokio::fs;` yields {"fs": "tokio::fs"}, `use std::net::{TcpListener, TcpStream};`
+    yields {"TcpListener": "std::net::TcpListener", "TcpStream": "std::net::TcpStream"}.
+    All `use` declarations of the file are considered (module scoping is not modelled).
+
+    Args:
+        root: Root node of the parsed file
+
+    Returns:
+        Dictionary of imported name to full path
+    """
+    imports: dict[str, str] = {}
+    pending = [root]
+    while pending:
+        node = pending.pop()
+        if node.type == "use_declaration":
+            for child in node.named_children:
+                _add_use_tree(child, "", imports)
+            continue
+        pending.extend(node.children)
+    return imports
+
+
+def _add_use_tree(node: Node, prefix: str, imports: dict[str, str]) -> None:
+    """Record the names bound by one (sub)tree of a `use` declaration.
+
+    Args:
+        node: identifier, scoped_identifier, self, use_as_clause, use_list or scoped_use_list node
+        prefix: Path contributed by the enclosing scoped_use_list nodes
+        imports: Dictionary to fill
+    """
+    if node.type == "use_list":
+        for item in node.named_children:
+            _add_use_tree(item, prefix, imports)
+    elif node.type == "scoped_use_list":
+        children = node.named_children
+        paths = [c for c in children if c.type != "use_list"]
+        inner = _join_path(prefix, _node_text(paths[0])) if paths else prefix
+        for use_list in (c for c in children if c.type == "use_list"):
+            _add_use_tree(use_list, inner, imports)
+    elif node.type == "use_as_clause":
+        parts = node.named_children
+        if len(parts) == 2:
+            imports[_node_text(parts[1])] = _join_path(prefix, _node_text(parts[0]))
+    elif node.type == "self":
+        if prefix:
+            imports[prefix.split("::")[-1]] = prefix
+    elif node.type in ("identifier", "scoped_identifier"):
+        full = _join_path(prefix, _node_text(node))
+        imports[full.split("::")[-1]] = full
+
+
+def _node_text(node: Node) -> str:
+    """Decode the source text of a node."""
+    return node.text.decode() if node.text else ""
+
+
+def _join_path(prefix: str, path: str) -> str:
+    """Join two path fragments, dropping a leading `::`."""
+    joined = f"{prefix}::{path}" if prefix else path
+    return joined.removeprefix("::")
+
+
+def _resolve_imported_path(path: str, imports: dict[str, str]) -> str:
+    """Expand the first segment of a call path through the file's `use` declarations.
+
+    With `use tokio::fs;` the call `fs::read_to_string` is `tokio::fs::read_to_string` (not
+    blocking); with `use std::net::TcpStream;` the call `TcpStream::connect` is
+    `std::net::TcpStream::connect`. Paths whose first segment is not imported are returned
+    unchanged, so un-imported short forms such as `fs::read` keep matching the short patterns.
+
+    Args:
+        path: Call path as written (e.g., "fs::read_to_string")
+        imports: Imported name to full path, from _collect_imports()
+
+    Returns:
+        Path with its first segment replaced by the imported path, if any
+    """
+    first, _, rest = path.partition("::")
+    full = imports.get(first)
+    if full is None or not rest or full == first:
+        return path
+    return f"{full}::{rest}"
 
 
 def _classify_blocking_pattern(path: str) -> str | None:
@@ -395,12 +489,18 @@ def _child_is_wrapper_name(child: Node) -> bool:
         child: Child node of a call_expression
 
     Returns:
-        True if the child is an identifier or scoped_identifier matching a wrapper name
+        True if the child is an identifier, scoped_identifier or method name matching a wrapper name
     """
     if child.type == "identifier":
         return _node_text_matches_wrapper(child)
     if child.type == "scoped_identifier":
         return _scoped_name_matches_wrapper(child)
+    if child.type == "field_expression":
+        # Method form, e.g. handle.spawn_blocking(|| ...) / runtime.spawn_blocking(|| ...)
+        return any(
+            part.type == "field_identifier" and _node_text_matches_wrapper(part)
+            for part in child.children
+        )
     return False
 
 
